@@ -160,7 +160,7 @@ theorem inv_verifyRemote (cfg : Cfg) (s : Storage) (i : Nat) (h : Inv cfg s) : I
   unfold verifyRemote
   split
   · exact h
-  · exact h
+  · split <;> exact h
   · split
     · exact h
     · exact inv_putVerified cfg s i none h
@@ -331,6 +331,84 @@ theorem reopen_twice (cfg : Cfg) (ops : List Op) (s : Storage)
     (h : runOps cfg Storage.empty ops = some s) : abs (reopen cfg (reopen cfg s)) = abs s := by
   have hi := inv_run cfg ops _ _ (inv_empty cfg) h
   rw [abs_reopen_of_inv cfg _ (inv_reopen cfg s hi), abs_reopen_of_inv cfg s hi]
+
+/-! ## Known finding: `VerifyRemoteChunk` on a pending chunk without certificate
+
+`reopen_abs_eq` is about `abs`; certificates are not persisted by design. But `VerifyRemoteChunk`
+dereferences the certificate of an already pending chunk (`chunkCertInfo.Cert.Signature`,
+storage.go), so the *answer* to a repeated signature request does change across a restart: before
+it the chunk's certificate is known, after it the call panics (nil pointer). With the guard of
+`fixes/C36-verify-remote-chunk-nil-cert.patch` (`cfg.nilCertGuard`) the answer is the same. -/
+
+/-- a pending chunk answers `known` or `panic`, never anything else, and the state is untouched -/
+theorem verifyRemote_pending (cfg : Cfg) (s : Storage) (i : Nat) (h : hasPending s i = true) :
+    (verifyRemote cfg s i).1 = s ∧ ((verifyRemote cfg s i).2 = .known ∨ (verifyRemote cfg s i).2 = .panic) := by
+  unfold verifyRemote
+  split
+  · exact ⟨rfl, Or.inl rfl⟩
+  · split
+    · exact ⟨rfl, Or.inl rfl⟩
+    · exact ⟨rfl, Or.inr rfl⟩
+  · rename_i hnone
+    rw [List.find?_eq_none] at hnone
+    simp only [hasPending, List.any_eq_true] at h
+    obtain ⟨e, he, hei⟩ := h
+    exact absurd hei (hnone e he)
+
+theorem find_reopen_none_cert (cfg : Cfg) (l : List Nat) : ∀ (acc : Storage) (e : Nat × Option Cert),
+    (∀ x ∈ acc.pending, x.2 = none) → e ∈ (l.foldl (roStep cfg) acc).pending → e.2 = none := by
+  induction l with
+  | nil => intro acc e h he; exact h e he
+  | cons i rest ih =>
+    intro acc e h he
+    apply ih (roStep cfg acc i) e _ he
+    intro x hx
+    simp only [roStep, List.mem_append, List.mem_filter, List.mem_singleton] at hx
+    rcases hx with hx | rfl
+    · exact h x hx.1
+    · rfl
+
+/-- **with the guard** a repeated signature request for a pending chunk is answered `known`
+before and after a reopen (and in every other state) -/
+theorem verifyRemote_pending_guarded (cfg : Cfg) (hg : cfg.nilCertGuard = true) (s : Storage) (i : Nat)
+    (h : hasPending s i = true) : (verifyRemote cfg s i).2 = .known := by
+  unfold verifyRemote
+  split
+  · rfl
+  · simp [hg]
+  · rename_i hnone
+    rw [List.find?_eq_none] at hnone
+    simp only [hasPending, List.any_eq_true] at h
+    obtain ⟨e, he, hei⟩ := h
+    exact absurd hei (hnone e he)
+
+/-- **without the guard (the code as it is; known finding `reopen-turns-known-into-panic`)**
+after a reopen *every* pending chunk makes `VerifyRemoteChunk` panic, whatever it answered before -/
+theorem verifyRemote_after_reopen_panics (cfg : Cfg) (hg : cfg.nilCertGuard = false) (s : Storage) (i : Nat)
+    (h : hasPending (reopen cfg s) i = true) : (verifyRemote cfg (reopen cfg s) i).2 = .panic := by
+  have hnone : ∀ e ∈ (reopen cfg s).pending, e.2 = none := by
+    intro e he
+    rw [reopen_eq] at he
+    exact find_reopen_none_cert cfg s.dbPending _ e (by simp) he
+  unfold verifyRemote
+  split
+  · rename_i c hf
+    have := hnone _ (List.mem_of_find?_eq_some hf)
+    simp at this
+  · simp [hg]
+  · rename_i hn
+    rw [List.find?_eq_none] at hn
+    simp only [hasPending, List.any_eq_true] at h
+    obtain ⟨e, he, hei⟩ := h
+    exact absurd hei (hn e he)
+
+/-- concrete witness: chunk 1 is pending with its certificate; `VerifyRemoteChunk` answers
+`known` before the reopen and panics after it -/
+def nfCfg : Cfg := { U := fun i => ⟨i % 2, 10 + i, 100 + i, true⟩, window := 20, limit := 1000, maxSkew := 30 }
+def nfS : Storage := putVerified nfCfg Storage.empty 1 (some ⟨1, 11, true⟩)
+theorem c36_known_becomes_panic :
+    (verifyRemote nfCfg nfS 1).2 = .known ∧ (verifyRemote nfCfg (reopen nfCfg nfS) 1).2 = .panic := by decide
+example : (verifyRemote { nfCfg with nilCertGuard := true } (reopen nfCfg nfS) 1).2 = .known := by decide
 
 /-! non-vacuity: the history that broke the unrepaired code (save an unexpired chunk, reopen) -/
 def exCfg : Cfg := { U := fun i => ⟨i % 2, 10 + i, 100 + i, true⟩, window := 20, limit := 1000, maxSkew := 30 }
